@@ -397,4 +397,80 @@ theorem findField_of_range (name k : Nat) (h : name < k) : findField name 0 (Lis
 theorem nullIs_toTy (bt : BTy) : nullIs bt.toTy = bt.nullable := by
   cases bt <;> decide
 
+/-! ### moved from Props/C11: helper lemmas -/
+
+theorem argLoop_vals (vs : List Value) : ∀ i, argLoop i (vs.map Res.val) = .ok vs := by
+  induction vs with
+  | nil => intro i; rfl
+  | cons v vs ih => intro i; simp [argLoop, ih]
+
+theorem argLoop_err (pre : List Value) (e : Err) (post : List Res) : ∀ i,
+    argLoop i (pre.map Res.val ++ .err e :: post) = .error (.err (e.wrap (.fnArg (i + pre.length)))) := by
+  induction pre with
+  | nil => intro i; simp [argLoop]
+  | cons v vs ih =>
+    intro i
+    simp only [List.map_cons, List.cons_append, argLoop, ih (i + 1), List.length_cons]
+    congr 4; omega
+
+theorem evalList_length (env : List (List Value)) (xs : List Expr) : (evalList env xs).length = xs.length := by
+  induction xs with
+  | nil => rfl
+  | cons a rest ih => simp [evalList, ih]
+
+theorem materializeList_length (schema : List (List Nat)) (args : List PExpr) :
+    (materializeList schema args).length = args.length := by
+  induction args with
+  | nil => rfl
+  | cons a rest ih => simp [materializeList, ih]
+
+/-- what `Materialize` + `FunctionCall.Evaluate` do with a call whose arguments have all been evaluated -/
+theorem eval_call (env : List (List Value)) (schema : List (List Nat)) (ty : Ty) (d : Desc) (args : List PExpr)
+    (vs : List Value) (h : evalList env (materializeList schema args) = vs.map Res.val) :
+    eval env (materialize schema (.call ty d args)) = applyFn d.fn (nullCheckIndices d args) vs := by
+  simp only [materialize, eval]
+  rw [evalArgs_eq, h, argLoop_vals]
+
+theorem filterRun_val (pred : Expr) (outer : List (List Value)) (r : Rec) (rest : List Msg) (v : Value)
+    (h : eval (r.vals :: outer) pred = .val v) :
+    filterRun pred outer (.data r :: rest) =
+      if isTrueRes (.val v) then (.data r :: (filterRun pred outer rest).1, (filterRun pred outer rest).2)
+      else filterRun pred outer rest := by
+  simp only [filterRun, h]
+  cases v with
+  | bool b => cases b <;> simp [isTrueRes]
+  | _ => simp [isTrueRes]
+
+theorem triOf_toValue (t : Tri) : triOf t.toValue = t := by
+  rcases t with _ | _ | _ <;> rfl
+
+theorem cmpInt_lt (x y : Int) : (cmpInt x y < 0) ↔ x < y := by unfold cmpInt; split <;> (try split) <;> omega
+
+theorem cmpInt_le (x y : Int) : (cmpInt x y ≤ 0) ↔ x ≤ y := by unfold cmpInt; split <;> (try split) <;> omega
+
+theorem cmpInt_ge (x y : Int) : (cmpInt x y ≥ 0) ↔ x ≥ y := by unfold cmpInt; split <;> (try split) <;> omega
+
+theorem cmpInt_gt (x y : Int) : (cmpInt x y > 0) ↔ x > y := by unfold cmpInt; split <;> (try split) <;> omega
+
+theorem cmpInt_eq (x y : Int) : (cmpInt x y = 0) ↔ x = y := by unfold cmpInt; split <;> (try split) <;> omega
+
+theorem conforms_null_nullable (l : ITy) (h : conforms l.toTy .null = true) : l.nullable = true := by
+  cases l <;> first | rfl | (simp [ITy.toTy, conforms] at h)
+
+theorem typecheckCmp_nullable (op : CmpOp) (l r : ITy) (bt : BTy) (h : typecheckCmp op l r = some bt)
+    (hn : l.nullable = true ∨ r.nullable = true) : bt.nullable = true := by
+  revert h hn
+  cases l <;> cases r <;> cases op <;> cases bt <;> decide
+
+/-- a variable bound by the record's schema evaluates to the record's column -/
+theorem eval_var (names : List Nat) (tris : List Tri) (outer : List (List Value)) (souter : List (List Nat))
+    (hlen : names.length = tris.length) (ty : Ty) (n : Nat) (hb : (findField n 0 names).isSome = true) :
+    eval (tris.map Tri.toValue :: outer) (materialize (names :: souter) (.var ty n)) =
+      .val (envOf names tris n).toValue := by
+  obtain ⟨i, hi⟩ := Option.isSome_iff_exists.1 hb
+  have hr := findField_range n names 0 i hi
+  have hlt : i < tris.length := by omega
+  simp only [materialize, resolveVar, hi, eval, lookupVar, envOf]
+  simp [hlt]
+
 end Octo.Logic
